@@ -60,6 +60,7 @@ Inductive ipc :=
 | IStateSet
 | IAlive
 | IExited (c : Z)
+| ICodeWritten (c : Z)
 | IWillRestart (c : Z)
 | IRestarting (c : Z)
 | IBackoff (c : Z)
@@ -112,11 +113,16 @@ Inductive sdpc :=
 | DWaitAll (order : list iid)
 | DEnded.
 
-Record thread := mkThread { apc : apipc; spc : stoppc; dpc : sdpc;
+(* a release that the code performs right after the parking TP the thread is parked at: it takes effect
+   when the scheduler resumes the thread (EResume), before anything the thread logs next *)
+Inductive release := RStarted (i : iid) | REndEarly (i : iid) | RRunCtx (i : iid) | RWgDone | RUnlock
+                   | RCodeOnce (c : Z).   (* exitCodeOnce.Do directly follows the exit_trigger TP *)
+
+Record thread := mkThread { apc : apipc; spc : stoppc; dpc : sdpc; pend : option release;
                             last_reg : option (name * option iid);    (* last getRunningProcess result *)
                             last_done : option (name * option iid) }. (* last getDoneProcess result *)
-#[export] Instance eta_thread : Settable _ := settable! mkThread <apc; spc; dpc; last_reg; last_done>.
-Definition thread0 := mkThread ANone SIdle DNone None None.
+#[export] Instance eta_thread : Settable _ := settable! mkThread <apc; spc; dpc; pend; last_reg; last_done>.
+Definition thread0 := mkThread ANone SIdle DNone None None None.
 
 Record sys := mkSys {
   confs : amap pconf;
@@ -129,18 +135,20 @@ Record sys := mkSys {
   sd_active : option (tid * list iid);
   wg : nat;
   proj_code : Z;
+  code_set : bool;              (* exitCodeOnce already used *)
   thinst : amap iid;
   threads : amap thread;
   run_called : bool }.
 #[export] Instance eta_sys : Settable _ :=
-  settable! mkSys <confs; ordered; viss; insts; running; donereg; reg_lock; sd_active; wg; proj_code; thinst; threads; run_called>.
+  settable! mkSys <confs; ordered; viss; insts; running; donereg; reg_lock; sd_active; wg; proj_code; code_set; thinst; threads; run_called>.
 
 Definition init_vis (c : pconf) : vis := mkVis (if deferred c then SDisabled else SPending) 0 0 HUnknown.
 
 Definition init (cs : amap pconf) (ord : bool) : sys :=
-  mkSys cs ord (map (fun p => (fst p, init_vis (snd p))) cs) [] [] [] None None 0 0 [] [] false.
+  mkSys cs ord (map (fun p => (fst p, init_vis (snd p))) cs) [] [] [] None None 0 0 false [] [] false.
 
 Inductive event :=
+| ENewInst (i : iid) (n : name)      (* NewProcess(...) in runProcess *)
 | ERegAdd (i : iid) (n : name)       (* logged inside the registry critical sections *)
 | ERegDel (i : iid)
 | ERegGet (n : name) (found : option iid)
@@ -156,6 +164,9 @@ Inductive event :=
 | EState (i : iid) (s : status)
 | ELaunch (ok : bool)
 | EWaitReturn (c : Z)
+| EExitCode (c : Z)
+| ELookupMid (k : name)
+| EResume
 | ERestartDecision (b : bool)
 | EBackoffWait (secs : N)
 | EBackoffElapsed
@@ -230,7 +241,9 @@ Definition lookup (s : sys) (k : name) : option iid :=
 Definition name_opt_eqb (a b : option (name * option iid)) : bool :=
   opt_eqb (fun p q => N.eqb (fst p) (fst q) && opt_eqb N.eqb (snd p) (snd q)) a b.
 
-(* what getDoneOrRunningProcess(k) returned to this thread, from its two recorded lookups *)
+(* what getDoneOrRunningProcess(k) returned to this thread, from its recorded lookups:
+   done registry; if that missed: running registry; if that missed too: done registry again (the last
+   done lookup is the one recorded) *)
 Definition thread_lookup (t : thread) (k : name) : option (option iid) :=
   match last_done t with
   | Some (k1, Some j) => if N.eqb k1 k then Some (Some j) else None
@@ -342,10 +355,14 @@ Definition do_spawn (i : iid) (n : name) (s : sys) : option sys :=
 Definition step_reg (s : sys) (th : tid) (e : event) : option sys :=
   let t := get_thread s th in
   match e with
-  | ERegAdd i n =>
+  | ENewInst i n =>
       do c <- get n (confs s);
-      check lock_free s && negb (has i (insts s));
-      Some (s <| insts := set i (new_inst n c) (insts s) |> <| running := set n i (running s) |>)
+      check negb (has i (insts s));
+      Some (s <| insts := set i (new_inst n c) (insts s) |>)
+  | ERegAdd i n =>
+      do x <- get i (insts s);
+      check lock_free s && N.eqb (nm x) n && (match pc x with IDeps _ => true | _ => false end);
+      Some (s <| running := set n i (running s) |>)
   | ERegDel i =>
       do x <- get i (insts s);
       check lock_free s && opt_eqb N.eqb (get (nm x) (running s)) (Some i);
@@ -358,7 +375,7 @@ Definition step_reg (s : sys) (th : tid) (e : event) : option sys :=
       Some (s <| donereg := set (nm x) i (donereg s) |>)
   | EDoneGet n found =>
       check opt_eqb N.eqb found (get n (donereg s));
-      Some (set_thread th (t <| last_done := Some (n, found) |> <| last_reg := None |>) s)
+      Some (set_thread th (t <| last_done := Some (n, found) |>) s)
   | _ => None
   end.
 
@@ -379,7 +396,7 @@ Definition step_stop (s : sys) (th : tid) (e : event) : option sys :=
         end in
       check ctx_ok;
       (* runCancelFn() directly follows the TP *)
-      Some (set_thread th (t <| spc := SEntered i cancel |>) (upd_inst i (fun x => x <| l_runctx := true |>) s))
+      Some (set_thread th (t <| spc := SEntered i cancel |> <| pend := Some (RRunCtx i) |>) s)
   | EStopRunning i =>
       do x <- get i (insts s);
       match spc t with
@@ -443,6 +460,12 @@ Definition step_state (s : sys) (th : tid) (i : iid) (s0 : status) : option sys 
       check N.eqb i i' && status_eqb s0 STerminating;
       Some (set_thread th (t <| spc := SPendS i |>) (end_finish i (nm x) STerminating s))
   | _ =>
+      if status_eqb s0 SPending then
+        (* runProcess: the new instance starts as Pending (before it is registered and started) *)
+        check negb own && negb (has i (map (fun p => (snd p, tt)) (thinst s)))
+              && (match pc x with IDeps _ => true | _ => false end);
+        Some (write_status (nm x) SPending s)
+      else
       check own;
       match pc x with
       | IPreLaunch => check status_eqb s0 SRunning; Some (set_pc i IStateSet (write_status (nm x) SRunning s))
@@ -460,10 +483,11 @@ Definition step_procend (s : sys) (th : tid) (i : iid) (s0 : status) (entry : bo
   if entry then
     match spc t with
     | SPend i' => check N.eqb i i' && status_eqb s0 STerminating;
-                  Some (set_thread th (t <| spc := SPendE i |>) (end_release_early i s))
+                  Some (set_thread th (t <| spc := SPendE i |> <| pend := Some (REndEarly i) |>) s)
     | _ => check own;
            match pc x with
-           | IEnding s1 c => check status_eqb s0 s1; Some (set_pc i (IInEnd s1 c false) (end_release_early i s))
+           | IEnding s1 c => check status_eqb s0 s1;
+                             Some (set_thread th (t <| pend := Some (REndEarly i) |>) (set_pc i (IInEnd s1 c false) s))
            | _ => None
            end
     end
@@ -510,7 +534,8 @@ Definition step_own (s : sys) (th : tid) (e : event) : option sys :=
       check Bool.eqb term (status_eqb (st (vis_of s n)) STerminating);
       Some (set_pc i (if term then IRunRet (Some 0%Z)
                       else if bad_dir (cf x) then IEnding SError 1 else IPreStart) s)
-  | EStarted, IPreStart => Some (upd_inst i (fun x => x <| l_started := true |> <| pc := IPreLaunch |>) s)
+  | EStarted, IPreStart =>
+      Some (set_thread th (get_thread s th <| pend := Some (RStarted i) |>) (set_pc i IPreLaunch s))
   | ELaunch ok, IStateSet =>
       check Bool.eqb ok (negb (start_fail (cf x)));
       Some (upd_inst i (fun x => if ok then x <| alive := true |> <| launches := S (launches x) |> <| pc := IAlive |>
@@ -518,9 +543,14 @@ Definition step_own (s : sys) (th : tid) (e : event) : option sys :=
   | EWaitReturn c, IAlive =>
       check opt_eqb Z.eqb (exited x) (Some c);
       Some (upd_inst i (fun x => x <| exited := None |> <| pc := IExited c |>) s)
-  | ERestartDecision b, IExited c =>
-      (* setExitCode(command.ExitCode()) then isRestartable() *)
-      let s := upd_vis n (fun v => v <| code := c |>) s in
+  | EExitCode c', IExited c =>
+      (* p.setExitCode(p.command.ExitCode()) *)
+      check Z.eqb c c';
+      Some (set_pc i (ICodeWritten c) (upd_vis n (fun v => v <| code := c |>) s))
+  | ELookupMid k, IDeps todo =>
+      check memN k todo;
+      Some (set_thread th (get_thread s th <| last_reg := None |>) s)
+  | ERestartDecision b, ICodeWritten c =>
       check Bool.eqb b (restart_ok (f_stopped x) (pol (cf x)) c (maxr (cf x)) (restarts (vis_of s n)));
       Some (upd_inst i (fun x => x <| f_stopped := false |>
                                    <| pc := if b then IWillRestart c else IEnding SCompleted c |>) s)
@@ -537,16 +567,17 @@ Definition step_own (s : sys) (th : tid) (e : event) : option sys :=
       Some (set_pc i (IProjEnd c false) s)
   | EExitTrigger c, IProjEnd c' sk =>
       check Z.eqb c c' && is_trigger (cf x) c' sk;
-      Some (set_pc i (ITriggered c) s)
+      (* exitCodeOnce.Do: only the first trigger stores its code *)
+      Some (set_thread th (get_thread s th <| pend := Some (RCodeOnce c) |>) (set_pc i (ITriggered c) s))
   | EExitCodeSet c, ITriggered c' =>
-      check Z.eqb c c';
+      check Z.eqb c (proj_code s);
       check (match dpc (get_thread s th) with DNone => true | _ => false end);
-      Some (set_pc i ILeaving (s <| proj_code := c |>))
+      Some (set_pc i ILeaving s)
   | EInstExit, IProjEnd c sk =>
       check negb (is_trigger (cf x) c sk);
       (* waitGroup.Done() directly follows the TP *)
-      Some (set_pc i IWgDone (s <| wg := pred (wg s) |>))
-  | EInstExit, ILeaving => Some (set_pc i IWgDone (s <| wg := pred (wg s) |>))
+      Some (set_thread th (get_thread s th <| pend := Some RWgDone |>) (set_pc i IWgDone s))
+  | EInstExit, ILeaving => Some (set_thread th (get_thread s th <| pend := Some RWgDone |>) (set_pc i IWgDone s))
   | EWgDone, IWgDone => Some s
   | EInstGone, IWgDone =>
       (* removeRunningProcess ran (ERegDel logged iff the entry was this instance) *)
@@ -638,10 +669,10 @@ Definition step_shutdown (s : sys) (th : tid) (e : event) : option sys :=
                        (s <| sd_active := Some (th, order) |>))
   | EShutdownEnd, DLoop order [] =>
       check all_done s order;
-      Some (set_thread th (t <| dpc := DEnded |>) (s <| reg_lock := None |> <| sd_active := None |>))
+      Some (set_thread th (t <| dpc := DEnded |> <| pend := Some RUnlock |>) (s <| sd_active := None |>))
   | EShutdownEnd, DWaitAll order =>
       check all_done s order;
-      Some (set_thread th (t <| dpc := DEnded |>) (s <| reg_lock := None |> <| sd_active := None |>))
+      Some (set_thread th (t <| dpc := DEnded |> <| pend := Some RUnlock |>) (s <| sd_active := None |>))
   | EShutdownUnlocked, DEnded =>
       Some (set_thread th (t <| dpc := DNone |> <| apc := match apc t with AShutdown => AShutdownDone | a => a end |>) s)
   | _, _ => None
@@ -691,15 +722,38 @@ Definition step_env (s : sys) (th : tid) (e : event) : option sys :=
   end.
 
 (* ---- the step function ------------------------------------------------------------------------------ *)
+Definition apply_release (r : release) (s : sys) : sys :=
+  match r with
+  | RStarted i => upd_inst i (fun x => x <| l_started := true |>) s
+  | REndEarly i => end_release_early i s
+  | RRunCtx i => upd_inst i (fun x => x <| l_runctx := true |>) s
+  | RWgDone => s <| wg := pred (wg s) |>
+  | RUnlock => s <| reg_lock := None |>
+  | RCodeOnce c => if code_set s then s else s <| proj_code := c |> <| code_set := true |>
+  end.
+
+(* the release a thread is parked in front of takes effect when it is resumed, at the latest before the
+   next event of that thread *)
+Definition flush (th : tid) (s : sys) : sys :=
+  match get th (threads s) with
+  | Some t => match pend t with
+              | Some r => apply_release r (set_thread th (t <| pend := None |>) s)
+              | None => s
+              end
+  | None => s
+  end.
+
 Definition step (s : sys) (te : tid * event) : option sys :=
   let '(th, e) := te in
+  let s := flush th s in
   match e with
+  | EResume => Some s
   | EBegin i =>
       do x <- get i (insts s);
       check negb (has th (thinst s)) && negb (has th (threads s));
       check forallb (fun p => negb (N.eqb (snd p) i)) (thinst s);
       Some (s <| thinst := set th i (thinst s) |>)
-  | ERegAdd _ _ | ERegDel _ | ERegGet _ _ | EDoneAdd _ | EDoneGet _ _ => step_reg s th e
+  | ENewInst _ _ | ERegAdd _ _ | ERegDel _ | ERegGet _ _ | EDoneAdd _ | EDoneGet _ _ => step_reg s th e
   | ESpawn _ _ | EApiBegin _ | EStartChecked _ _ | EStopChecked _ _ | ERestartChecked _ _ | ERestartStopped _
   | EApiReturn _ | ERunSpawned | ERunReturn _ | ENoRestart _ => step_api s th e
   | EStopEnter _ _ | EStopRunning _ | EStopPending _ | ESignal _ _ _ | EStopReturn _ => step_stop s th e
